@@ -727,6 +727,7 @@ def c09(tier):
     TT("date_tp_date", cast(cast("DS_VD", "time_period"), "date"), 1)
     for t_, ds_ in (("date", "DS_VD"), ("time_period", "DS_VP"), ("time", "DS_VT")):
         TT("ds_%s_same" % t_, cast(ds_, t_), 2)
+    out += nested(tier).get("c09", [])
     return out
 
 
@@ -857,7 +858,7 @@ def split_variants(tpls, prefix="split_"):
 def _with_splits(fn):
     def wrapped(tier):
         base = fn(tier) + cross(tier).get(fn.__name__, [])
-        return base + split_variants(base)
+        return base + split_variants(base) + nested(tier).get(fn.__name__, [])
     wrapped.__name__ = fn.__name__
     wrapped.__doc__ = fn.__doc__
     return wrapped
@@ -947,4 +948,81 @@ def cross(tier):
     out["c07"] += [T("x_check_of_binop_cmp", check(binop(">", binop("+", "DS_4", "DS_5"), 0), error_code="E1", error_level=2), n, structs=POOL),
                    T("x_check_of_agg_cmp", check(binop(">", s4(), 0), invalid=True), 3, structs=POOL),
                    T("x_check_imbalance_of_aggs", check(binop(">=", s4(), agg("sum", "DS_5", "group by", ["Id_1"])), imbalance=binop("-", s4(), agg("sum", "DS_5", "group by", ["Id_1"]))), 3, structs=POOL)]
+    return out
+
+
+# ------------------------------------------------------------------------------------------ systematic nesting: outer operator over the sub-query of an inner operator
+def _inner_exprs():
+    """dataset-valued expressions with identifiers Id_1, Id_2 and the single Integer measure Me_1"""
+    gt0 = binop(">", "Me_1", 0)
+    return [
+        ("dsds", lambda: binop("+", "DS_4", "DS_5")),
+        ("dssc", lambda: binop("*", "DS_4", 2)),
+        ("unary", lambda: unop("abs", "DS_4")),
+        ("agg", lambda: agg("sum", "DS_7", "group by", ["Id_1", "Id_2"])),
+        ("analytic", lambda: analytic("sum", "DS_4", partition_by=["Id_1"])),
+        ("join", lambda: jbody(join("inner_join", [("DS_4", "d1"), ("DS_K", "d2")]), lambda j: keep(j, ["Me_1"]))),
+        ("union", lambda: setop("union", ["DS_4", "DS_5"])),
+        ("setdiff", lambda: setop("setdiff", ["DS_4", "DS_5"])),
+        ("filter", lambda: filter_("DS_4", gt0)),
+        ("calc", lambda: calc("DS_4", [(None, "Me_1", binop("+", "Me_1", 1))])),
+        ("rename2", lambda: rename(rename("DS_4", [("Me_1", "Me_7")]), [("Me_7", "Me_1")])),
+        ("keep", lambda: keep("DS_1", ["Me_1"])),
+        ("cast", lambda: cast("DS_4", "integer")),
+        ("member", lambda: member("DS_1", "Me_1")),
+        ("if", lambda: if_(binop(">", "DS_4", 0), "DS_4", "DS_5")),
+        ("nvl", lambda: binop("nvl", "DS_4", 0)),
+    ]
+
+
+def _outer_ops():
+    """(property, name, builder over an inner expression factory, rows)"""
+    gt0 = binop(">", "Me_1", 0)
+    return [
+        ("c01", "plus_ds", lambda e: binop("+", e(), "DS_5"), 2),
+        ("c01", "ds_minus", lambda e: binop("-", "DS_5", e()), 2),
+        ("c01", "plus_sc", lambda e: binop("+", e(), 1), 2),
+        ("c01", "neg", lambda e: unop("-", e()), 2),
+        ("c01", "isnull", lambda e: unop("isnull", e()), 2),
+        ("c01", "gt_sc", lambda e: binop(">", e(), 1), 2),
+        ("c01", "nvl_sc", lambda e: binop("nvl", e(), 0), 2),
+        ("c01", "if_cond", lambda e: if_(binop(">", e(), 0), "DS_4", "DS_5"), 2),
+        ("c01", "between", lambda e: between(e(), 0, 5), 2),
+        ("c02", "filter", lambda e: filter_(e(), gt0), 2),
+        ("c02", "calc", lambda e: calc(e(), [(None, "Me_9", binop("*", "Me_1", 2))]), 2),
+        ("c02", "rename", lambda e: rename(e(), [("Me_1", "Me_8")]), 2),
+        ("c02", "keep", lambda e: keep(e(), ["Me_1"]), 2),
+        ("c02", "sub", lambda e: sub(e(), [("Id_2", "a")]), 2),
+        ("c03", "sum_by", lambda e: agg("sum", e(), "group by", ["Id_1"]), 3),
+        ("c03", "count_by", lambda e: agg("count", e(), "group by", ["Id_1"]), 3),
+        ("c03", "max_all", lambda e: agg("max", e()), 3),
+        ("c04", "join", lambda e: join("inner_join", [(e(), "a"), ("DS_K", "b")]), 2),
+        ("c05", "union", lambda e: setop("union", [e(), "DS_5"]), 2),
+        ("c05", "union_second", lambda e: setop("union", ["DS_5", e()]), 2),
+        ("c05", "intersect", lambda e: setop("intersect", [e(), "DS_5"]), 2),
+        ("c05", "exists_in", lambda e: exists_in("DS_5", e()), 2),
+        ("c06", "an_max", lambda e: analytic("max", e(), partition_by=["Id_1"]), 3),
+        ("c07", "check", lambda e: check(binop(">", e(), 0), error_code="E", error_level=1), 2),
+        ("c09", "cast_num", lambda e: cast(e(), "number"), 2),
+    ]
+
+
+def nested(tier):
+    """-> {property: [templates]}: every outer operator over every inner operator"""
+    out = {}
+    # classes that fail for every combination (recorded findings: a dataset-level analytic or if as an operand, an if whose condition is a nested
+    # expression) are represented by a few combinations only; combinations whose result is empty by construction are left out
+    REP = {"analytic": ("plus_sc", "filter", "sum_by", "union", "join"), "if": ("plus_sc", "filter", "sum_by", "union", "join")}
+    EMPTY = {("plus_ds", "setdiff"), ("ds_minus", "setdiff"), ("intersect", "setdiff")}
+    for prop, oname, ob, rows in _outer_ops():
+        for iname, ib in _inner_exprs():
+            if iname in REP and oname not in REP[iname]:
+                continue
+            if oname == "if_cond" and iname not in ("dsds", "filter", "agg"):
+                continue
+            if (oname, iname) in EMPTY:
+                continue
+            rows_ = max(rows, 3 if iname in ("agg", "analytic") else rows)
+            d = T("n_%s_of_%s" % (oname, iname), ob(ib), rows_)
+            out.setdefault(prop, []).append(d)
     return out
